@@ -11,10 +11,10 @@ git -C /repo worktree add -q --detach $WT HEAD || exit 2
 trap 'git -C /repo worktree remove --force '$WT' >/dev/null 2>&1' EXIT
 cd $WT
 cp "$D/demo_test.go" seed_demo_test.go
-go test -vet=off -count=1 -run "$RUN" . >/tmp/val-$$.clean.log 2>&1; c0=$?
+go test ${SEED_TESTFLAGS:-} -vet=off -count=1 -run "$RUN" . >/tmp/val-$$.clean.log 2>&1; c0=$?
 git apply "$D/patch.diff" || { echo "RESULT apply=FAIL"; exit 1; }
 go build ./... || { echo "RESULT build=FAIL"; exit 1; }
-go test -vet=off -count=1 -run "$RUN" . >/tmp/val-$$.mut.log 2>&1; c1=$?
+go test ${SEED_TESTFLAGS:-} -vet=off -count=1 -run "$RUN" . >/tmp/val-$$.mut.log 2>&1; c1=$?
 rm seed_demo_test.go
 go test -vet=off -count=1 ./... >/tmp/val-$$.suite.log 2>&1; c2=$?
 echo "RESULT demo_clean_exit=$c0 (want 0) demo_mutated_exit=$c1 (want !=0) suite_mutated_exit=$c2 (want 0)"
